@@ -152,15 +152,12 @@ def _kind(x):
 
 
 def run(case):
-    t0 = time.process_time()
     try:
         with warnings.catch_warnings(record=True):      # (the library's @deprecated forces the filter to "always")
             out = _run_tree(case) if case["part"] == "tree" else _run_map(case)
     except Fail as f:
         lab = R.describe(case["tree"]) if case["part"] == "tree" else str({k: case[k] for k in ("fn", "in_axes", "out_axes", "mapper", "rank", "form")})
         out = bad("%s on %s: %s" % (case.get("op", case.get("mapper")), lab, f.what), finding_key=f.key)
-    st = out.setdefault("stats", {})
-    st["cpu_s"] = round(time.process_time() - t0, 4)
     return out
 
 
